@@ -165,7 +165,8 @@ def classify(prop):
 def attributed(proof, kind, tags, pid):
     """Does obligation of (kind,tags) count for property pid in this proof?"""
     if kind == "tagged":
-        return pid in tags
+        # tag_alias: obligations tagged for another property that this property's statement depends on in this proof
+        return pid in tags or any(t in tags for t in proof.get("tag_alias", {}).get(pid, ()))
     spec = proof["props"].get(pid)
     if spec is None:
         return False
